@@ -526,7 +526,7 @@ func runDirect(o c03opts, tp topo, variant string, idx int64) scenarioOut {
 
 		return out
 	}
-	defer li.Close()
+	defer closeListenerBounded(li)
 	stop := make(chan struct{})
 	defer close(stop)
 	applyFaults(m, rng, o.lossMax, stop)
@@ -641,7 +641,7 @@ func runConnect(o c03opts, idx int64, variant string) scenarioOut {
 
 		return out
 	}
-	defer li.Close()
+	defer closeListenerBounded(li)
 	ach := make(chan net.Conn, 1)
 	go func() { c, _ := li.Accept(); ach <- c }()
 	uc, err := net.Dial("unix", sock)
@@ -783,6 +783,158 @@ func runProxy(o c03opts, idx int64, variant string) scenarioOut {
 	_ = sc.Close()
 	out.Lines, out.Sig, out.What, out.Inconcl, out.Wall = lg.lines, r.sig, r.what, r.inconcl, r.wall.Seconds()
 	out.Faults = faultCounters(m)
+
+	return out
+}
+
+// closeListenerBounded: Listener.Close with a ceiling. (A listener whose socket was cancelled behind its back can
+// dead-lock in quic-go's transport/server close; the harness must not wait for it.)
+func closeListenerBounded(li *netceptor.Listener) bool {
+	return within(20*time.Second, func() { _ = li.Close() })
+}
+
+// ---------------------------------------------------------------- sibling streams on one listener
+
+// killSocket closes a node's socket by name behind the application's back (its owner "goes away uncleanly").
+func killSocket(nd *mesh.Node, svc string) bool {
+	l := nd.N.GetListenerLock()
+	l.RLock()
+	pc := nd.N.GetListenerRegistry()[svc]
+	l.RUnlock()
+	if pc == nil {
+		return false
+	}
+	_ = pc.Close()
+
+	return true
+}
+
+// runSibling: two streams are accepted on ONE listener of node c. The dialler of the second one (node b) loses its
+// socket without a word while the acceptor is still sending to it: the acceptor is told 'service unknown' and gives
+// that connection up. The first stream (from node a, paced over a few seconds) must complete untouched, and the
+// service must still accept a new dial afterwards.
+func runSibling(o c03opts, idx int64) scenarioOut {
+	out := scenarioOut{Name: "sibling/teardown"}
+	rng := rand.New(rand.NewSource(o.seed*7919 + idx))
+	m, err := buildMesh(o.seed*100+idx, []string{"a", "b", "c"}, []string{"a-b", "b-c"}, mesh.Opts{RouteUpdate: 300 * time.Millisecond})
+	if err != nil {
+		out.Inconcl = err.Error()
+
+		return out
+	}
+	defer m.StopAll()
+	li, err := m.Nodes["c"].N.ListenAndAdvertise("sink", nil, nil)
+	if err != nil {
+		out.Inconcl = err.Error()
+
+		return out
+	}
+	defer closeListenerBounded(li)
+	dialTo := func(from string) (d, a *netceptor.Conn, err error) {
+		type ar struct {
+			c   net.Conn
+			err error
+		}
+		ach := make(chan ar, 1)
+		go func() { c, err := li.Accept(); ach <- ar{c, err} }()
+		ctx, cancel := context.WithTimeout(context.Background(), 40*time.Second)
+		defer cancel()
+		d, err = m.Nodes[from].N.DialContext(ctx, "c", "sink", nil)
+		if err != nil {
+			return nil, nil, fmt.Errorf("dial: %w", err)
+		}
+		select {
+		case r := <-ach:
+			if r.err != nil {
+				return d, nil, fmt.Errorf("accept: %w", r.err)
+			}
+
+			return d, r.c.(*netceptor.Conn), nil
+		case <-time.After(40 * time.Second):
+			return d, nil, fmt.Errorf("accept timeout")
+		}
+	}
+	d1, a1, err := dialTo("a")
+	if err != nil {
+		out.Inconcl = out.Name + ": first stream: " + err.Error()
+
+		return out
+	}
+	d2, a2, err := dialTo("b")
+	if err != nil {
+		out.Inconcl = out.Name + ": second stream: " + err.Error()
+
+		return out
+	}
+	stop := make(chan struct{})
+	defer close(stop)
+	applyFaults(m, rng, o.lossMax/2, stop)
+	sp := xferSpec{Name: out.Name, TotalAB: o.total, TotalBA: o.total, MaxChunk: o.maxChunk, PaceAB: 4}
+	sp.pre, _, _, _ = deadlineLines(d1, a1)
+	out.Spec = sp
+	lg := &ioLog{}
+	// the second stream: the acceptor keeps sending; after a while the dialler's socket vanishes
+	a2done := make(chan error, 1)
+	go func() {
+		buf := make([]byte, 1200)
+		for {
+			if _, err := a2.Write(buf); err != nil {
+				a2done <- err
+
+				return
+			}
+			time.Sleep(2 * time.Millisecond)
+		}
+	}()
+	go func() {
+		b := make([]byte, 4096)
+		for {
+			if _, err := d2.Read(b); err != nil {
+				return
+			}
+		}
+	}()
+	killed := make(chan bool, 1)
+	go func() {
+		time.Sleep(800 * time.Millisecond)
+		ok := killSocket(m.Nodes["b"], svcOf(d2.LocalAddr()))
+		lg.add(ioLine{Ev: "cut", Note: "sibling"})
+		killed <- ok
+	}()
+	r := runTransfer(lg, sp, meshEnd(d1), meshEnd(a1), o.seed*131+idx, o.ceiling)
+	out.Lines, out.Sig, out.What, out.Inconcl, out.Wall = lg.lines, r.sig, r.what, r.inconcl, r.wall.Seconds()
+	out.Faults = faultCounters(m)
+	if ok := <-killed; !ok && out.Sig == "" && out.Inconcl == "" {
+		out.Inconcl = out.Name + ": the second dialler's socket was not found"
+	}
+	// the acceptor gave the orphaned connection up (or will at its idle timeout): informational
+	select {
+	case e := <-a2done:
+		out.Detail = map[string]any{"orphan_acceptor_write_ended": e.Error()}
+	case <-time.After(100 * time.Millisecond):
+		out.Detail = map[string]any{"orphan_acceptor_write_ended": "not yet"}
+	}
+	if out.Sig != "" {
+		out.Sig = "sibling-stream-killed:" + out.Sig
+		out.What = "a stream died when the acceptor gave up ANOTHER stream of the same listener whose dialler had vanished: " + out.What
+	} else if out.Inconcl == "" {
+		// the service must still be there for a new dial
+		d3, a3, err := dialTo("a")
+		if err != nil {
+			out.Sig = "service-gone-after-sibling-teardown"
+			out.What = "after the acceptor gave up one orphaned stream, a new dial to the same (still open) listener fails: " + err.Error()
+		} else {
+			_ = d3.CloseConnection()
+			_ = a3.CloseConnection()
+		}
+		if d3 != nil && err != nil {
+			_ = d3.CloseConnection()
+		}
+	}
+	_ = d1.CloseConnection()
+	_ = a1.CloseConnection()
+	_ = d2.CloseConnection()
+	_ = a2.CloseConnection()
 
 	return out
 }
@@ -952,7 +1104,7 @@ func runStallCut(o c03opts, variant string, idx int64) scenarioOut {
 
 		return out
 	}
-	defer li.Close()
+	defer closeListenerBounded(li)
 	stop := make(chan struct{})
 	defer close(stop)
 	applyFaults(m, rng, o.lossMax/2, stop)
@@ -1118,6 +1270,11 @@ func cmdC03(args []string) {
 		}
 	}
 	addDirect("cut_endpoint", "bulk", o.total)
+	for k := 0; k < 2; k++ {
+		idx++
+		i := idx
+		jobs = append(jobs, job{"sibling/teardown", func() scenarioOut { return runSibling(o, i) }})
+	}
 	if *tier == "thorough" {
 		addDirect("cut_endpoint", "oneway", o.total)
 		addDirect("chain2", "longlived", o.total)
@@ -1162,7 +1319,7 @@ func cmdC03(args []string) {
 		}
 		if so.Sig != "" {
 			sig := "C03:" + strings.SplitN(so.Name, "/", 2)[0] + ":" + so.Sig
-			if strings.HasPrefix(so.Sig, "reroute:") || strings.HasPrefix(so.Sig, "accept:") {
+			if strings.HasPrefix(so.Sig, "reroute:") || strings.HasPrefix(so.Sig, "accept:") || strings.HasPrefix(so.Sig, "sibling-stream-killed") || strings.HasPrefix(so.Sig, "service-gone") {
 				sig = "C03:" + so.Sig
 			}
 			res.violate(sig, so.Name+": "+so.What, map[string]any{"scenario": so.Name, "seed": *seed, "spec": so.Spec, "faults": so.Faults})
